@@ -147,7 +147,7 @@ WRITE_REASONS = {
 }
 
 
-def classify_pos_write(f, store, stmt):
+def _classify_pos_write_base(f, store, stmt):
     """Kind of the value assigned to X._pos by ``stmt``."""
     root = ast.unparse(store.value)
     if isinstance(stmt, ast.AugAssign):
@@ -174,6 +174,17 @@ def classify_pos_write(f, store, stmt):
         return 'zero'
     if G.is_len_of(val, root) or (isinstance(val, ast.Call) and ast.unparse(val) in (f'len({root}._bitstore)',)):
         return 'length'
+    # match start + pattern length, possibly through a local: `endpos = match[0] + len(bs); self._pos = endpos`
+    v2 = G.expand(f, val, _plain_aliases(f))
+    if isinstance(v2, ast.BinOp) and isinstance(v2.op, ast.Add):
+        for a, b in ((v2.left, v2.right), (v2.right, v2.left)):
+            if isinstance(a, ast.Subscript) and isinstance(a.value, ast.Name) and ast.unparse(a.slice) == '0' and isinstance(b, ast.Call) \
+                    and ast.unparse(b.func) == 'len' and len(b.args) == 1:
+                for x in own_walk(f.node):
+                    if isinstance(x, ast.Assign) and isinstance(x.targets[0], ast.Name) and x.targets[0].id == a.value.id and isinstance(x.value, ast.Call) \
+                            and isinstance(x.value.func, ast.Attribute) and x.value.func.attr in ('find', 'rfind') and x.value.args \
+                            and ast.unparse(x.value.args[0]) == ast.unparse(b.args[0]) and x.lineno < stmt.lineno:
+                        return 'match-end'
     if isinstance(val, ast.Name):
         # saved position restored, or validated parameter
         for x in own_walk(f.node):
@@ -228,6 +239,116 @@ def classify_pos_write(f, store, stmt):
     return 'unrecognised'
 
 
+def classify_pos_write(f, store, stmt):
+    k = _classify_pos_write_base(f, store, stmt)
+    if k not in GOOD_KINDS and isinstance(stmt, ast.Assign) and not isinstance(stmt.targets[0], ast.Tuple) \
+            and not isinstance(stmt.value, ast.Constant) and _checked_before(f, stmt, stmt.value):
+        return 'checked-before'
+    return k
+
+
+def _plain_aliases(f):
+    """Single-assignment locals bound to a sum/difference expression (used to look through `endpos = match[0] + len(bs)`)."""
+    cnt, rhs = {}, {}
+    for x in own_walk(f.node):
+        if isinstance(x, (ast.Assign, ast.AugAssign, ast.AnnAssign, ast.For)):
+            tg = x.targets if isinstance(x, ast.Assign) else [x.target]
+            for t in tg:
+                for y in ast.walk(t):
+                    if isinstance(y, ast.Name):
+                        cnt[y.id] = cnt.get(y.id, 0) + 1
+        if isinstance(x, ast.Assign) and len(x.targets) == 1 and isinstance(x.targets[0], ast.Name):
+            rhs[x.targets[0].id] = x.value
+    return {n: v for n, v in rhs.items() if cnt.get(n) == 1 and n not in f.params() and isinstance(v, ast.BinOp)}
+
+
+def _arith_aliases(f):
+    """Single-assignment locals that are arithmetic over things that do not change before the position write:
+    `start = self._pos`, `available = len(self) - start`.  name -> rhs node (already expanded)."""
+    import copy
+    cnt, rhs = {}, {}
+    for x in own_walk(f.node):
+        if isinstance(x, (ast.Assign, ast.AugAssign, ast.AnnAssign, ast.For)):
+            tg = x.targets if isinstance(x, ast.Assign) else [x.target]
+            for t in tg:
+                for y in ast.walk(t):
+                    if isinstance(y, ast.Name):
+                        cnt[y.id] = cnt.get(y.id, 0) + 1
+        if isinstance(x, ast.Assign) and len(x.targets) == 1 and isinstance(x.targets[0], ast.Name):
+            rhs[x.targets[0].id] = x.value
+
+    def ok(e):
+        if isinstance(e, (ast.Name, ast.Constant)):
+            return True
+        if isinstance(e, ast.Attribute):
+            return ok(e.value)
+        if isinstance(e, ast.BinOp) and isinstance(e.op, (ast.Add, ast.Sub)):
+            return ok(e.left) and ok(e.right)
+        if isinstance(e, ast.Call) and isinstance(e.func, ast.Name) and e.func.id == 'len' and len(e.args) == 1:
+            return ok(e.args[0])
+        return False
+    al = {n: v for n, v in rhs.items() if cnt.get(n) == 1 and n not in f.params() and ok(v) and not isinstance(v, ast.Constant)}
+
+    class Sub(ast.NodeTransformer):
+        def visit_Name(self, n):
+            if n.id in al and isinstance(n.ctx, ast.Load):
+                return copy.deepcopy(al[n.id])
+            return n
+    for _ in range(3):
+        al = {n: Sub().visit(copy.deepcopy(v)) for n, v in al.items()}
+    return al, Sub
+
+
+def _checked_before(f, stmt, val):
+    """The value written has, before the write, a raising test `value > len(self)` (compared as linear forms after expanding
+    the arithmetic locals), and cannot be negative: it is the old position plus terms known to be non-negative."""
+    import copy
+    from .ingest import _lin, _lin_sub
+    al, Sub = _arith_aliases(f)
+
+    def ex(e):
+        return Sub().visit(copy.deepcopy(e))
+    want = _lin_sub(_lin(ex(val)), {'len(self)': 1})
+    upper = False
+    for s in own_walk(f.node):
+        if isinstance(s, ast.If) and s.lineno < stmt.lineno and G.exits(s.body) and G.raises_in(s.body):
+            for d in G.disjuncts(s.test):
+                if isinstance(d, ast.Compare) and len(d.ops) == 1 and isinstance(d.ops[0], ast.Gt):
+                    if _lin_sub(_lin(ex(d.left)), _lin(ex(d.comparators[0]))) == want:
+                        upper = True
+                elif isinstance(d, ast.Compare) and len(d.ops) == 1 and isinstance(d.ops[0], ast.Lt):
+                    if _lin_sub(_lin(ex(d.comparators[0])), _lin(ex(d.left))) == want:
+                        upper = True
+    if not upper:
+        return False
+    # lower bound: every definition of the value is old position (+ non-negative terms), or a position handed back by a reader
+    from .mutate import facts_before
+
+    def nonneg(e, depth=0):
+        e = ex(e)
+        form = _lin(e)
+        for k, c in form.items():
+            if k == 1:
+                if c < 0:
+                    return False
+                continue
+            if c < 0:
+                return False
+            if k.endswith('._pos') or k.startswith('len(') or k.endswith('.bitlength') or k.endswith('.length'):
+                continue
+            if k.isidentifier():
+                if 'ge0' in facts_before(f, k, stmt.lineno):
+                    continue
+                defs = [x for x in own_walk(f.node) if isinstance(x, ast.Assign) and any(isinstance(y, ast.Name) and y.id == k for t in x.targets for y in ast.walk(t))]
+                if defs and depth < 2 and all(
+                        (isinstance(x.targets[0], ast.Tuple) and isinstance(x.value, ast.Call) and 'read' in ast.unparse(x.value.func)) or
+                        (isinstance(x.targets[0], ast.Name) and nonneg(x.value, depth + 1)) for x in defs):
+                    continue
+            return False
+        return True
+    return nonneg(val)
+
+
 def _checked_after(f, stmt):
     """A later `if self._pos > len(self): self._pos = <saved>; raise` covers this write."""
     # the write must be able to reach the check: not inside a block that returns first
@@ -247,7 +368,7 @@ def _checked_after(f, stmt):
     return False
 
 
-GOOD_KINDS = {'zero', 'length', 'restore', 'validated', 'match', 'after-written', 'bounded-increment', 'checked-after'}
+GOOD_KINDS = {'zero', 'length', 'restore', 'validated', 'match', 'match-end', 'after-written', 'bounded-increment', 'checked-after', 'checked-before'}
 
 
 def rule_POSW(ctx):
@@ -549,6 +670,17 @@ def rule_RB(ctx):
         fin = [s for s in body if isinstance(s, ast.Try) and s.finalbody and any(ast.unparse(x.targets[0]) == 'self._pos' for x in s.finalbody if isinstance(x, ast.Assign))]
         if ok or (saves and fin):
             r.ok(f'{g.key}', {'instance': g.key, 'save': norm(saves[0]), 'restore': norm(restores[-1]) if restores else 'finally'})
+            continue
+        # or it never touches the position: nothing it can reach (on either stream class) stores _pos
+        touched = None
+        for c in ('ConstBitStream', 'BitStream'):
+            par = ctx.reachable([ctx.node(g, c)])
+            for node in par:
+                h = m.funcs[node[0]]
+                if h.mod == 'bitstream' and _pos_stores(h) and h.name not in ('__init__', '__new__', '__copy__', '_copy'):
+                    touched = touched or (h, ctx.fmt_path(ctx.path_to(par, node)))
+        if touched is None:
+            r.ok(f'{g.key}', {'instance': g.key, 'verdict': 'reaches no write of _pos'})
         else:
             r.fail(g.key, f'{nm}: save/restore of _pos', f'{nm} must leave the position where it was: save before {callee}, restore after', loc=g.loc())
     # readlist assigns _pos only together with the successful result
